@@ -35,8 +35,9 @@ type MessageFuture struct {
 
 func NewMessageFuture(message RpcMessage) *MessageFuture {
 	return &MessageFuture{
-		ID:   message.ID,
-		Done: make(chan struct{}),
+		ID: message.ID,
+		// buffered: the response may be notified just after the waiter has timed out
+		Done: make(chan struct{}, 1),
 	}
 }
 
